@@ -253,7 +253,7 @@ def gen_orthogonal(rng, D):
     return R
 
 
-def gen_exact_case(rng, kind=None):
+def gen_exact_case(rng, kind=None, base=None):
     n = rng.choice([2, 4, 4, 8, 8, 16])
     D = rng.choice([1, 2, 3, 4, 4])
     d = rng.randint(1, D)
@@ -276,8 +276,25 @@ def gen_exact_case(rng, kind=None):
     # distance table: L1 distances of integer points (a metric, symmetric), ties plentiful
     pts = [[rng.randint(0, 9) for _ in range(2)] for _ in range(n)]
     T = [[Fraction(sum(abs(a - b) for a, b in zip(pts[i], pts[j]))) for j in range(n)] for i in range(n)]
-    kind = kind or rng.choice(["perm", "perm", "rot", "trans", "scale"])
+    kind = kind or rng.choice(["perm", "perm", "rot", "trans", "scale", "scale"])
     tr = {"kind": kind}
+    # an arbitrary (non-symmetric) dyadic matrix for centerMatrix itself
+    C = [[Fraction(rng.randint(-32, 32), den) for _ in range(n)] for _ in range(n)]
+    if rng.random() < 0.15:
+        C = [[C[min(i, j)][max(i, j)] for j in range(n)] for i in range(n)]
+    # the whole case at a tiny / huge scale 2^b (exact in binary64; the model is over Qc and has no absolute
+    # thresholds): half of the cases, b over -60..60
+    bexp = 0
+    if base is None:
+        if rng.random() < 0.5:
+            bexp = rng.choice([-1, 1]) * rng.randint(20, 60) if rng.random() < 0.8 else rng.randint(-20, 20)
+    else:
+        bexp = base
+    bs = Fraction(2) ** bexp
+    if bexp:
+        X = [[v * bs for v in row] for row in X]
+        T = [[v * bs for v in row] for row in T]
+        C = [[v * bs for v in row] for row in C]
     if kind == "perm":
         ql = list(range(n))
         rng.shuffle(ql)
@@ -287,28 +304,47 @@ def gen_exact_case(rng, kind=None):
     elif kind == "rot":
         tr["R"] = gen_orthogonal(rng, D)
     elif kind == "trans":
-        tr["t"] = [Fraction(rng.choice([1, -1]) * rng.choice([1, 3, 1000, 1024, 1999]), rng.choice([1, 2])) for _ in range(D)]
+        tr["t"] = [bs * Fraction(rng.choice([1, -1]) * rng.choice([1, 3, 1000, 1024, 1999]), rng.choice([1, 2])) for _ in range(D)]
+        # centerMatrix kills a 1^T + 1 a^T + g 1 1^T for every matrix
+        tr["a"] = [bs * Fraction(rng.randint(-2000, 2000), 2) for _ in range(n)]
+        tr["g"] = bs * Fraction(rng.randint(-2000, 2000), 2)
     else:
-        tr["c"] = rng.choice([Fraction(2), Fraction(1, 2), Fraction(3), Fraction(1, 4), Fraction(5, 4), Fraction(1024),
-                              Fraction(1, 1024), Fraction(-1), Fraction(-3, 2)])
-    return {"stream": "exact", "n": n, "D": D, "d": d, "data": dk, "X": X, "P": P, "T": T, "tr": tr}
+        if rng.random() < 0.6:
+            # powers of two over many decades in both directions: every operation stays exact
+            tr["c"] = rng.choice([1, 1, 1, -1]) * Fraction(2) ** rng.randint(-60, 60)
+        else:
+            tr["c"] = rng.choice([Fraction(2), Fraction(1, 2), Fraction(3), Fraction(1, 4), Fraction(5, 4), Fraction(1024),
+                                  Fraction(1, 1024), Fraction(-1), Fraction(-3, 2)])
+    return {"stream": "exact", "n": n, "D": D, "d": d, "data": dk, "X": X, "P": P, "T": T, "C": C, "tr": tr,
+            "base_exp": bexp}
+
+
+def case_C(case):
+    """the matrix for centerMatrix itself (older corpus cases have none: the distance table serves)"""
+    return case["C"] if "C" in case else case["T"]
 
 
 def apply_tr(case):
-    """-> (X', P', T') exact images"""
+    """-> (X', P', T', C') exact images"""
     X, P, T, tr, n, D = case["X"], case["P"], case["T"], case["tr"], case["n"], case["D"]
+    C = case_C(case)
     k = tr["kind"]
     if k == "perm":
         ql = tr["ql"]
-        return [X[ql[i]] for i in range(n)], P, [[T[ql[i]][ql[j]] for j in range(n)] for i in range(n)]
+        return ([X[ql[i]] for i in range(n)], P, [[T[ql[i]][ql[j]] for j in range(n)] for i in range(n)],
+                [[C[ql[i]][ql[j]] for j in range(n)] for i in range(n)])
     if k == "rot":
         R = tr["R"]
         Xp = [[sum(R[a][b] * X[i][b] for b in range(D)) for a in range(D)] for i in range(n)]
-        return Xp, matmul(R, P), T
+        return Xp, matmul(R, P), T, transpose(C)
     if k == "trans":
-        return [[X[i][a] + tr["t"][a] for a in range(D)] for i in range(n)], P, T
+        a = tr.get("a", [Fraction(0)] * n)
+        g = tr.get("g", Fraction(0))
+        return ([[X[i][t] + tr["t"][t] for t in range(D)] for i in range(n)], P, T,
+                [[C[i][j] + a[i] + a[j] + g for j in range(n)] for i in range(n)])
     c = tr["c"]
-    return [[c * v for v in row] for row in X], P, [[abs(c) * v for v in row] for row in T]
+    return ([[c * v for v in row] for row in X], P, [[abs(c) * v for v in row] for row in T],
+            [[c * v for v in row] for row in C])
 
 
 def case_to_json(case):
@@ -340,12 +376,17 @@ def flat(rows):
     return " ".join(fhex(v) for row in rows for v in row)
 
 
-def exact_impl_lines(case, Xp, Pp, Tp):
+NI = 8       # stage commands per exact case
+NM = 13      # model commands per exact case
+
+
+def exact_impl_lines(case, Xp, Pp, Tp, Cp):
     n, D, d = case["n"], case["D"], case["d"]
     return ["KPCA %d %d %s" % (n, D, flat(case["X"])), "KPCA %d %d %s" % (n, D, flat(Xp)),
             "PCA %d %d %d %s %s" % (n, D, d, flat(case["X"]), flat(case["P"])),
             "PCA %d %d %d %s %s" % (n, D, d, flat(Xp), flat(Pp)),
-            "MDS %d %s" % (n, flat(case["T"])), "MDS %d %s" % (n, flat(Tp))]
+            "MDS %d %s" % (n, flat(case["T"])), "MDS %d %s" % (n, flat(Tp)),
+            "CEN %d %s" % (n, flat(case_C(case))), "CEN %d %s" % (n, flat(Cp))]
 
 
 def eval_exact(ctx, exe, mexe, cases, stats):
@@ -354,14 +395,14 @@ def eval_exact(ctx, exe, mexe, cases, stats):
         return 0
     images = [apply_tr(c) for c in cases]
     lines = []
-    for c, (Xp, Pp, Tp) in zip(cases, images):
-        lines += exact_impl_lines(c, Xp, Pp, Tp)
+    for c, (Xp, Pp, Tp, Cp) in zip(cases, images):
+        lines += exact_impl_lines(c, Xp, Pp, Tp, Cp)
     impl = run_impl(ctx, exe, lines)
     evals = 0
     model_lines, model_map = [], []       # (case index, what, expected table)
     rel_lines, rel_map = [], []
-    for ci, (c, (Xp, Pp, Tp)) in enumerate(zip(cases, images)):
-        res = impl[6 * ci:6 * ci + 6]
+    for ci, (c, (Xp, Pp, Tp, Cp)) in enumerate(zip(cases, images)):
+        res = impl[NI * ci:NI * ci + NI]
         bad = [r for r in res if crashed(r)]
         if bad:
             ctx.violation(case_to_json(c), "the stage driver aborts on this input: " + str(bad[0]["crash"])[:500])
@@ -385,9 +426,9 @@ def eval_exact(ctx, exe, mexe, cases, stats):
                           + " ".join(map(str, res[0][:6])))
             continue
         n, D, d, tr = c["n"], c["D"], c["d"], c["tr"]
-        K, Kp, A, Ap, M, Mp = tabs
+        K, Kp, A, Ap, M, Mp, Ce, Cep = tabs
         need = [("M", K), ("M", Kp), ("mean", A), ("cov", A), ("proj", A), ("mean", Ap), ("cov", Ap), ("proj", Ap),
-                ("M", M), ("M", Mp)]
+                ("M", M), ("M", Mp), ("M", Ce), ("M", Cep)]
         if any(tag not in t for tag, t in need):
             ctx.violation(case_to_json(c), "a stage result is missing a table")
             continue
@@ -405,9 +446,10 @@ def eval_exact(ctx, exe, mexe, cases, stats):
                         "MEAN %d %d %s" % (n, D, Xpq), "COV %d %d %s" % (n, D, Xpq),
                         "PROJ %d %d %d %s %s %s" % (n, D, d, qtable(Pp), qtable(meanp), Xpq),
                         "MDS %d %s" % (n, qtable(c["T"])), "MDS %d %s" % (n, qtable(Tp)),
+                        "CENTER %d %s" % (n, qtable(case_C(c))), "CENTER %d %s" % (n, qtable(Cp)),
                         "COV8 %d %d %s" % (n, D, Xq)]
         model_map.append((ci, [K["M"], Kp["M"], mean, A["cov"], A["proj"], meanp, Ap["cov"], Ap["proj"],
-                               M["M"], Mp["M"]]))
+                               M["M"], Mp["M"], Ce["M"], Cep["M"]]))
         # ---- the property's relations on the implementation's own outputs
         k = tr["kind"]
         rl = []
@@ -418,7 +460,9 @@ def eval_exact(ctx, exe, mexe, cases, stats):
                   ("REQ 1 %d %s %s" % (D, qtable(mean), qtable(meanp)), "mean unchanged"),
                   ("REQ %d %d %s %s" % (D, D, qtable(A["cov"]), qtable(Ap["cov"])), "covariance unchanged"),
                   ("RPR %d %d %s %s %s" % (n, d, qperm(ql), qtable(A["proj"]), qtable(Ap["proj"])), "projection rows permuted"),
-                  ("RPT %d %s %s %s" % (n, qperm(ql), qtable(M["M"]), qtable(Mp["M"])), "mds matrix permuted")]
+                  ("RPT %d %s %s %s" % (n, qperm(ql), qtable(M["M"]), qtable(Mp["M"])), "mds matrix permuted"),
+                  ("RPT %d %s %s %s" % (n, qperm(ql), qtable(Ce["M"]), qtable(Cep["M"])),
+                   "centerMatrix of a relabelled matrix is the relabelled result")]
         elif k == "rot":
             R = tr["R"]
             zero = [[Fraction(0)] * D]
@@ -432,14 +476,18 @@ def eval_exact(ctx, exe, mexe, cases, stats):
             rl = [("REQ %d %d %s %s" % (n, n, qtable(K["M"]), qtable(Kp["M"])), "J K' J = J K J"),
                   ("RAV %d %s %s %s %s" % (D, qtable(I), qtable([tr["t"]]), qtable(mean), qtable(meanp)), "mean' = mean + t"),
                   ("REQ %d %d %s %s" % (D, D, qtable(A["cov"]), qtable(Ap["cov"])), "covariance unchanged by translation"),
-                  ("REQ %d %d %s %s" % (n, d, qtable(A["proj"]), qtable(Ap["proj"])), "projection unchanged by translation")]
+                  ("REQ %d %d %s %s" % (n, d, qtable(A["proj"]), qtable(Ap["proj"])), "projection unchanged by translation"),
+                  ("REQ %d %d %s %s" % (n, n, qtable(Ce["M"]), qtable(Cep["M"])),
+                   "centerMatrix kills a 1^T + 1 a^T + g 1 1^T")]
         else:
             cc = tr["c"]
             rl = [("RSC %d %d %s %s %s" % (n, n, qtok(cc * cc), qtable(K["M"]), qtable(Kp["M"])), "kpca matrix scaled by c^2"),
                   ("RSV %d %s %s %s" % (D, qtok(cc), qtable(mean), qtable(meanp)), "mean scaled by c"),
                   ("RSC %d %d %s %s %s" % (D, D, qtok(cc * cc), qtable(A["cov"]), qtable(Ap["cov"])), "covariance scaled by c^2"),
                   ("RSC %d %d %s %s %s" % (n, d, qtok(cc), qtable(A["proj"]), qtable(Ap["proj"])), "projection scaled by c"),
-                  ("RSC %d %d %s %s %s" % (n, n, qtok(cc * cc), qtable(M["M"]), qtable(Mp["M"])), "mds matrix scaled by c^2")]
+                  ("RSC %d %d %s %s %s" % (n, n, qtok(cc * cc), qtable(M["M"]), qtable(Mp["M"])), "mds matrix scaled by c^2"),
+                  ("RSC %d %d %s %s %s" % (n, n, qtok(cc), qtable(Ce["M"]), qtable(Cep["M"])),
+                   "centerMatrix(c M) = c centerMatrix(M)")]
         for line, what in rl:
             rel_lines.append(line)
             rel_map.append((ci, what))
@@ -448,20 +496,23 @@ def eval_exact(ctx, exe, mexe, cases, stats):
     pos = 0
     names = ["compute_centered_kernel_matrix(X)", "compute_centered_kernel_matrix(X')", "compute_mean(X)", "compute_covariance_matrix(X)",
              "project(X)", "compute_mean(X')", "compute_covariance_matrix(X')", "project(X')",
-             "mds matrix(T)", "mds matrix(T')"]
+             "mds matrix(T)", "mds matrix(T')", "centerMatrix(C)", "centerMatrix(C')"]
     for ci, impl_tabs in model_map:
         c = cases[ci]
-        outs = mout[pos:pos + 11]
-        pos += 11
+        outs = mout[pos:pos + NM]
+        pos += NM
         tabs = [parse_model_table(o) for o in outs]
         if any(t is None for t in tabs):
             raise vlib.BuildError("model driver returned a malformed table")
-        for j in range(10):
+        for j in range(NM - 1):
             evals += 1
             if tabs[j] != impl_tabs[j]:
                 extra = ""
-                if j in (3,) and tabs[10] == impl_tabs[j]:
+                if j in (3,) and tabs[NM - 1] == impl_tabs[j]:
                     extra = " (the implementation's table equals the model of the PRE-F8 code: off-diagonals halved)"
+                if c.get("base_exp") or (c["tr"]["kind"] == "scale" and j in (1, 5, 6, 7, 9, 11)):
+                    extra += " (data at scale 2^%d%s)" % (c.get("base_exp", 0), ", image scaled by %s" % c["tr"]["c"]
+                                                          if c["tr"]["kind"] == "scale" else "")
                 ctx.mismatch(case_to_json(c), "%s differs from the extracted model%s" % (names[j], extra))
                 stats["model_mismatch"] = stats.get("model_mismatch", 0) + 1
                 break
@@ -753,7 +804,7 @@ def householder(v):
     return [[(1.0 if a == b else 0.0) - 2 * v[a] * v[b] / n2 for b in range(D)] for a in range(D)]
 
 
-def gen_meta_case(rng, method=None, kind=None):
+def gen_meta_case(rng, method=None, kind=None, base=None):
     method = method or rng.choice(DET_METHODS)
     needs_k, trans_ok, scale_ok, kernel = METHODS[method]
     kinds = ["perm", "rot"] + (["trans", "combo"] if trans_ok else []) + (["scale"] if scale_ok else [])
@@ -797,9 +848,26 @@ def gen_meta_case(rng, method=None, kind=None):
     if kind in ("trans", "combo"):
         tr["t"] = [rng.choice([-1, 1]) * 1e3 * rng.random() for _ in range(D)]
     if kind == "scale":
-        tr["c"] = 10 ** rng.uniform(-3, 3)
+        # half of the scales are powers of two from 2^-40 to 2^40 (the relation is then exact up to the rounding
+        # of the method itself), the others are generic factors over six decades
+        tr["c"] = 2.0 ** rng.randint(-40, 40) if rng.random() < 0.5 else 10 ** rng.uniform(-3, 3)
+    # the whole case (data, translation, kernel width) at a tiny / huge scale 2^b: a power of two changes no
+    # rounding, so everything the property states must hold there exactly as at unit scale
+    bexp = 0
+    if base is None:
+        if rng.random() < 0.4:
+            bexp = rng.choice([-1, 1]) * rng.randint(20, 40)
+    else:
+        bexp = base
+    if bexp:
+        bs = 2.0 ** bexp
+        X = [[v * bs for v in row] for row in X]
+        if "t" in tr:
+            tr["t"] = [v * bs for v in tr["t"]]
+        if "width" in params:
+            params["width"] = params["width"] * bs * bs
     return {"stream": "meta", "method": method, "params": params, "N": N, "D": D, "data": dk, "X": X, "tr": tr,
-            "noise_seed": rng.randrange(1 << 30)}
+            "noise_seed": rng.randrange(1 << 30), "base_exp": bexp}
 
 
 def meta_image(case):
@@ -835,7 +903,7 @@ def meta_tol(case):
 
 
 def emb_cmd(params, N, D, X, extra=""):
-    kv = " ".join("%s=%s" % (k, v) for k, v in sorted(params.items()))
+    kv = " ".join("%s=%s" % (k, float(v).hex() if isinstance(v, float) else v) for k, v in sorted(params.items()))
     return "EMB %s N=%d D=%d wd=10 %s\nX %s" % (kv, N, D, extra, " ".join(float(v).hex() for row in X for v in row))
 
 
@@ -888,6 +956,7 @@ def meta_cmds(c):
     eps = noise_level(c)
     if c["tr"]["kind"] in ("trans", "combo"):
         # the translated data carry ABSOLUTE rounding noise ~ ulp(|t|): mimic it on the original
+        eps *= 2.0 ** c.get("base_exp", 0)
         Xn = [[v + eps * (2 * nrng.random() - 1) for v in row] for row in X]
     else:
         Xn = [[v * (1 + eps * (2 * nrng.random() - 1)) for v in row] for row in X]
